@@ -122,9 +122,15 @@ func TestC08Grid(t *testing.T) {
 	for ck := 0; ck < len(c08Ciphers)*keys; ck++ {
 		ci, name := ck%len(c08Ciphers), c08Ciphers[ck%len(c08Ciphers)]
 		key := c08Content(2, wire.KeyLen(name), seed+uint64(ci)*977+uint64(ck/len(c08Ciphers))*7919)
-		blk, err := sim.NewBlockCrypt(name, key)
+		// the application's key buffer is wiped after the cipher has been made
+		// (ordinary key hygiene): the cipher must have its own copy
+		handed := append([]byte(nil), key...)
+		blk, err := sim.NewBlockCrypt(name, handed)
 		if err != nil {
 			t.Fatal(err)
+		}
+		for i := range handed {
+			handed[i] = 0xEE
 		}
 		ref, err := wire.NewCrypto(name, key)
 		if err != nil {
